@@ -325,7 +325,9 @@ pub fn main(opts: &Opts) {
     scheds.dedup();
     for s in &scheds {
         let case = s.join(",");
+        progress(&case);
         let obs = run_schedule(s);
+        progress_idle();
         sink.corr(&case, format!("sess run {cfg} {case}"), obs.clone());
         sink.spec(&case, format!("sess spec {case} {obs}"));
         sink.count(&format!("len.{}", (s.len() / 4) * 4));
